@@ -132,6 +132,12 @@ theorem checkAttr_plain (c : Config) (has : Name → Bool) (perm : Perm) (name :
   unfold checkAttr
   rcases hhas with h | h <;> simp [hperm, hplain, h]
 
+/-- allowed kind, allowed name, and the `exposed_` prefix is off: the name itself, whatever the object has -/
+theorem checkAttr_plain_noprefix (c : Config) (has : Name → Bool) (perm : Perm) (name : Name)
+    (hperm : c.perm perm = true) (hplain : c.plain name = true) (hoff : c.prefixOn = false) :
+    checkAttr c has perm name = .ok name := by
+  simp [checkAttr, hperm, hplain, hoff]
+
 theorem checkAttr_noperm (c : Config) (has : Name → Bool) (perm : Perm) (name : Name)
     (hperm : c.perm perm = false) : checkAttr c has perm name = .error attributeError := by
   simp [checkAttr, hperm]
